@@ -25,6 +25,7 @@ class Seam:
     def __init__(self, root, repo):
         self.root = os.path.realpath(root)
         self.repo = os.path.realpath(repo)
+        self.logdir = os.path.join(self.root, "log") + os.sep  # the repo's log files are not service state
         self.enabled = False
         self.sim = None
         self.fds = {}
@@ -60,7 +61,8 @@ class Seam:
             return False
         if isinstance(p, bytes):
             p = p.decode()
-        return os.path.abspath(p).startswith(self.root + os.sep)
+        p = os.path.abspath(p)
+        return p.startswith(self.root + os.sep) and not p.startswith(self.logdir)
 
     def _site(self):
         """innermost repo function (outside the file managers) on the stack"""
